@@ -122,6 +122,7 @@ func (ex *Exec) ApplySchemas() {
 	if len(ex.lib.Schemas) == 0 {
 		return
 	}
+	ex.computeReach()
 	for fn := range ssautil.AllFunctions(ex.prog) {
 		if len(fn.Blocks) == 0 || !isRepoFunc(fn) || fn.Parent() != nil || fn.Synthetic != "" {
 			continue
@@ -161,7 +162,7 @@ func (ex *Exec) ApplySchemas() {
 			}
 			c := ex.lib.Contracts[key]
 			if c == nil {
-				c = &Contract{Key: key, Flags: map[string]bool{}, File: sc.File, Line: sc.Line, PkgPath: sc.PkgPath}
+				c = &Contract{Key: key, Flags: map[string]bool{}, File: sc.File, Line: sc.Line, PkgPath: sc.PkgPath, Synth: true}
 				ex.lib.Contracts[key] = c
 			}
 			for _, cl := range sc.Clauses {
@@ -404,4 +405,85 @@ func (ex *Exec) hasDirectBackendOp(fn *ssa.Function) bool {
 		return false
 	}
 	return scan(fn)
+}
+
+// computeReach marks, for every /repo function, whether it may reach (transitively,
+// through static calls, closures it defines and invocations on the filesystem
+// interfaces, which resolve to *VFS) an operation flagged backend-op / mutating.
+func (ex *Exec) computeReach() {
+	type info struct{ backend, mutating bool }
+	memo := map[*ssa.Function]*info{}
+	var visit func(fn *ssa.Function) *info
+	visit = func(fn *ssa.Function) *info {
+		if in, ok := memo[fn]; ok {
+			return in
+		}
+		in := &info{}
+		memo[fn] = in
+		if !isRepoFunc(fn) {
+			return in
+		}
+		for _, b := range fn.Blocks {
+			for _, ins := range b.Instrs {
+				switch x := ins.(type) {
+				case *ssa.MakeClosure:
+					c := visit(x.Fn.(*ssa.Function))
+					in.backend = in.backend || c.backend
+					in.mutating = in.mutating || c.mutating
+				case ssa.CallInstruction:
+					cc := x.Common()
+					if cc.IsInvoke() {
+						key := cc.Method.FullName()
+						if c := ex.lib.Contracts[key]; c != nil && c.Extern {
+							in.backend = in.backend || c.Flags["backend-op"]
+							in.mutating = in.mutating || c.Flags["mutating"]
+							continue
+						}
+						if m := ex.dispatchMethod(cc.Value.Type(), cc.Method.Name()); m != nil {
+							c := visit(m)
+							in.backend = in.backend || c.backend
+							in.mutating = in.mutating || c.mutating
+						}
+						continue
+					}
+					if sc := cc.StaticCallee(); sc != nil {
+						if c := ex.lib.Contracts[funcKey(sc)]; c != nil && c.Extern {
+							in.backend = in.backend || c.Flags["backend-op"]
+							in.mutating = in.mutating || c.Flags["mutating"]
+							continue
+						}
+						c := visit(sc)
+						in.backend = in.backend || c.backend
+						in.mutating = in.mutating || c.mutating
+					}
+				}
+			}
+		}
+		return in
+	}
+	ex.reachBackend = map[string]bool{}
+	ex.reachMutating = map[string]bool{}
+	for fn := range ssautil.AllFunctions(ex.prog) {
+		if isRepoFunc(fn) && fn.Parent() == nil && len(fn.Blocks) > 0 {
+			in := visit(fn)
+			// recursion: iterate once more so that cycles settle
+			delete(memo, fn)
+			in = visit(fn)
+			if in.backend {
+				ex.reachBackend[funcKey(fn)] = true
+			}
+			if in.mutating {
+				ex.reachMutating[funcKey(fn)] = true
+			}
+		}
+	}
+}
+
+func hasCtxParam(fn *ssa.Function) bool {
+	for _, p := range fn.Params {
+		if p.Name() == "ctx" {
+			return true
+		}
+	}
+	return false
 }
